@@ -150,6 +150,7 @@ func runC02(c *ev.Ctx) {
 	c02FirstAfterVersion(c)
 	c02Client(c)
 	c02ClientBadSizes(c)
+	c02ClientAnnouncedSizes(c)
 }
 
 // c02FirstAfterVersion: the very first frame after Rversion must already obey
@@ -863,5 +864,82 @@ func c02Client(c *ev.Ctx) {
 			c.Sample(map[string]any{"route": "client", "class": class, "reply": hexCut(reply), "call_error": fmt.Sprint(gerr)})
 		}
 		fs.Shutdown()
+	}
+}
+
+// c02ClientAnnouncedSizes: replies that are perfectly well-formed frames but
+// announce a size the client is then expected to provide room for. Rxattrwalk
+// carries the size of the value as 64 bits: whatever it says, GetXattr /
+// ListXattrs return a value (what the server then actually delivers) or an
+// error - the caller's goroutine does not panic and the process does not try to
+// allocate what a 15-byte frame announced. Runs last: a panic here ends the
+// shard.
+func c02ClientAnnouncedSizes(c *ev.Ctx) {
+	sizes := []uint64{1 << 62, 1<<63 + 5, 1<<64 - 1, 1 << 44, 1<<32 + 1}
+	for i, sz := range sizes {
+		for li, list := range []bool{false, true} {
+			if !c.Mine(i*2 + li) {
+				continue
+			}
+			c.Begin(fmt.Sprintf("C02 client Rxattrwalk size=%d list=%v", sz, list))
+			fs := fakesrv.New(nil)
+			auto := fakesrv.Auto(0, 7)
+			sz := sz
+			fs.Handler = func(s *fakesrv.Server, rq *fakesrv.Req) {
+				if rq.Err == nil && rq.Msg.Type == wire.Txattrwalk {
+					s.Reply(wire.Rxattrwalk, rq.Msg.Tag, sz)
+					return
+				}
+				if rq.Err == nil && rq.Msg.Type == wire.Tread {
+					// the value turns out to be 5 bytes long
+					off := rq.Msg.F[1].(uint64)
+					var d []byte
+					if off < 5 {
+						d = []byte("value")[off:]
+					}
+					s.Reply(wire.Rread, rq.Msg.Tag, d)
+					return
+				}
+				auto(s, rq)
+			}
+			var val []byte
+			var names []string
+			var err error
+			done := make(chan struct{})
+			go func() {
+				defer close(done)
+				cl, e := p9.NewClient(fs.C, p9.WithMessageSize(1<<16))
+				if e != nil {
+					err = e
+					return
+				}
+				root, e := cl.Attach("")
+				if e != nil {
+					err = e
+					return
+				}
+				if list {
+					names, err = root.ListXattrs()
+				} else {
+					val, err = root.GetXattr("user.x")
+				}
+				runtime.KeepAlive(root)
+			}()
+			out, dump := quiesce.Await(done, wd)
+			det := map[string]any{"announced_size": sz, "list": list, "err": fmt.Sprint(err)}
+			if out != quiesce.CondMet {
+				hang(c, out, dump, "C02:cli:call-hangs-on-announced-size", det)
+				fs.Shutdown()
+				continue
+			}
+			if err == nil && !list && string(val) != "value" {
+				det["got"] = len(val)
+				c.Violation("C02:cli:call-succeeds-with-values-not-in-the-frames:announced-size:xattr", det)
+			}
+			_ = names
+			c.Case(fmt.Sprintf("cli:announced-size:%d:%v", sz, list), true)
+			c.Count("client_announced_sizes", 1)
+			fs.Shutdown()
+		}
 	}
 }
